@@ -28,7 +28,10 @@ import (
 // kinds: assign (x = ..., x op= ..., x++), index (x[i] = ..., x[i].F = ...), field (x.F = ...),
 // deref (*x = ...), addr (&x, &x[i], &x.F: passed by address), append (x = append(x, ...) is an
 // assign; append kept separate only when the result goes elsewhere), copy (copy(x, ...)),
-// delete (delete(x, k)), setcall (x.Set*(...) / x.Store(...) on a captured value: a write through reflect).
+// delete (delete(x, k)), setcall (x.Set*(...) / x.Store(...) on a captured value: a write through reflect),
+// frame-writeback: a function literal NESTED in the run-time closure (it may run later, in another goroutine:
+// reflect.MakeFunc wrappers, go/defer literals) assigns to a slot of the frame the OUTER closure was executed
+// with (f.data[i] = ..., getFrame(f, l).data[i] = ...): a write to a frame that is not on the writer's own chain.
 // The position is informative only; the Coq side compares (generator, variable, kind, lock).
 
 func init() {
@@ -191,6 +194,68 @@ func captureScan(fset *token.FileSet, gen string, lit *ast.FuncLit, pkgVars map[
 		p := fset.Position(at)
 		add(capRow{Gen: gen, Var: id.Name, Kind: kind, Lock: lockAt(at), Pos: fmt.Sprintf("%s:%d", filepath.Base(p.Filename), p.Line), Sites: 1})
 	}
+	// frame parameters of the run-time closure itself
+	frameParams := map[string]bool{}
+	for _, p := range lit.Type.Params.List {
+		if st, ok := p.Type.(*ast.StarExpr); ok {
+			if id, ok := st.X.(*ast.Ident); ok && id.Name == "frame" {
+				for _, nm := range p.Names {
+					frameParams[nm.Name] = true
+				}
+			}
+		}
+	}
+	// outerFrameRoot: the assigned location is a slot of the outer closure's frame
+	outerFrameRoot := func(e ast.Expr) string {
+		for {
+			switch x := e.(type) {
+			case *ast.ParenExpr:
+				e = x.X
+			case *ast.IndexExpr:
+				e = x.X
+			case *ast.SelectorExpr:
+				e = x.X
+			case *ast.StarExpr:
+				e = x.X
+			case *ast.Ident:
+				if frameParams[x.Name] && x.Obj != nil && x.Obj.Pos() >= lit.Type.Pos() && x.Obj.Pos() < lit.Type.End() {
+					return x.Name
+				}
+				return ""
+			case *ast.CallExpr:
+				if fn, ok := x.Fun.(*ast.Ident); ok && fn.Name == "getFrame" && len(x.Args) > 0 {
+					e = x.Args[0]
+					continue
+				}
+				return ""
+			default:
+				return ""
+			}
+		}
+	}
+	ast.Inspect(lit.Body, func(n ast.Node) bool {
+		nested, ok := n.(*ast.FuncLit)
+		if !ok {
+			return true
+		}
+		ast.Inspect(nested.Body, func(m ast.Node) bool {
+			as, ok := m.(*ast.AssignStmt)
+			if !ok || as.Tok == token.DEFINE {
+				return true
+			}
+			for _, lhs := range as.Lhs {
+				if _, isIdent := lhs.(*ast.Ident); isIdent {
+					continue
+				}
+				if name := outerFrameRoot(lhs); name != "" {
+					p := fset.Position(lhs.Pos())
+					add(capRow{Gen: gen, Var: name, Kind: "frame-writeback", Lock: lockAt(lhs.Pos()), Pos: fmt.Sprintf("%s:%d", filepath.Base(p.Filename), p.Line), Sites: 1})
+				}
+			}
+			return true
+		})
+		return false
+	})
 	ast.Inspect(lit.Body, func(n ast.Node) bool {
 		switch x := n.(type) {
 		case *ast.AssignStmt:
